@@ -230,7 +230,7 @@ def unit_hostile_data():
                 except Exception as e: return {"expected": "rows or a DataError", "observed": "%s: %s" % (type(e).__name__, str(e)[:100])}
                 return None
             res.append(sweep("C10/hostile/the Encoding cell of a CID against a data file read by path", ecases(), echeck, "bounded", "delimited and fixed CIDs x 22 encoding names (non-text codecs, unknown names, mismatching encodings)",
-                             describe=lambda c: {"format": c[0], "encoding": c[1]}, function="data.DataFormat.encoding + rowio readers", unit="C10.hostile.data", props=["C10"]))
+                             describe=lambda c: {"format": c[0], "encoding": c[1]}, function="data.DataFormat.encoding + rowio readers", unit="C10.hostile.data", props=["C10", "C06"]))
         finally:
             shutil.rmtree(tmp, ignore_errors=True)
         return res
